@@ -142,7 +142,7 @@ pub fn c03() -> Vec<Item> {
 pub fn c07() -> Vec<Item> {
     let fams = props::c07("quick");
     let mut v = vec![];
-    for (fam, label, bq, bt) in [("mailbox_overflow", "overflow/cap1/k3", 2usize, 3usize), ("mailbox_overflow", "overflow/cap2/k4", 2, 3), ("model_origin", "model_origin#1", 1, 2)] {
+    for (fam, label, bq, bt) in [("mailbox_overflow", "overflow_x/cap1/k2", 2usize, 3usize), ("mailbox_overflow", "overflow_x/cap1/k3", 2, 3), ("mailbox_overflow", "overflow_x/cap2/k3", 2, 3), ("mailbox_overflow", "overflow/cap1/k3", 1, 2), ("model_origin", "model_origin#1", 1, 2)] {
         let sc = find(&fams, fam, label);
         v.push(sim_item(format!("sim/{}/2w", label), sc, 2, &["same_origin_order", "sched_missed"], false, bq, bt));
     }
